@@ -149,6 +149,7 @@ def gen_C12(g, tier):
             k = g.randint(1, n - 1)
             cs.append(Case('mr.merge %d %d %s' % (k, n - k, hexes(ang)), 'cmp', 'circular-merge'))
         cs.append(Case('o.c12.direction %d %s' % (n, hexes(ang)), 'orc', 'circular-direction', check=direction_check))
+        cs.append(Case('o.c12.circ %d %s' % (n, hexes(ang)), 'orc', 'circular-all-orders', check=small_hex_check(1e-9)))
     return cs
 
 
